@@ -1,5 +1,5 @@
 CONSTANTS
-  NS = {"c"}
+  NS = {"r"}
   NK = 3
   BatchSet = "conc"
   Callers = {1,2}
